@@ -19,6 +19,8 @@
 (*   and that are not discrete / hybrid.  Positivity is required of pairs the   *)
 (*   space calls unequal and that are further apart than the space's own        *)
 (*   resolution (logged).                                                       *)
+(* Spaces with laws of their own (Space.fam): the 3-D Dubins airplane spaces,   *)
+(* space-time and the constrained spaces - stated at the end of this module.    *)
 EXTENDS Integers, Sequences
 
 Abs(x) == IF x < 0 THEN -x ELSE x
@@ -50,4 +52,49 @@ AllSet(flags) == \A i \in 1..Len(flags) : flags[i] = 1
 Proportional(dat, k, dab, tol) == Abs(64 * dat - k * dab) <= 64 * tol
 (* rep: distance between I(I(a,b,s),b,u) and I(a,b,s+(1-s)u) *)
 Reparameterised(rep, tol) == rep >= 0 /\ rep <= tol
+
+(* --------------- 3-D Dubins airplane spaces (Owen, Vana, Vana-Owen) --------------- *)
+(* "Distance is measured by the length of a Dubins airplane curve": no flight path is   *)
+(* shorter than the straight line between the two positions (e: Euclidean distance of   *)
+(* the positions), distance() is the length of the path getPath() returns, and          *)
+(* interpolate() follows that path: it is the point at t of the SAME computed path      *)
+(* (flags from the overload that takes the path) and the curve has no jumps - the chord *)
+(* between the interpolants at t = k1/64 < k2/64 is at most lip x (k2-k1)/64 x the path *)
+(* length, lip = lip[1]/lip[2] the speed bound the parameterisation has by construction *)
+(* (chords and the length d3 in units of 1e-3 so that the products stay 32-bit).  The   *)
+(* pitch of every interpolant stays in the pitch range (pex: excess in nano-radians)    *)
+(* up to the resolution res of the underlying planar Dubins code.                       *)
+AtLeastStraightLine(d, e, tol) == d + tol >= e
+IsPathLength(d, plen, tol) == Within(d, plen, tol)
+NoJumps(cks, chord, d3, lip, tol3) ==
+    /\ Len(chord) = Len(cks) - 1
+    /\ \A i \in 1..Len(chord) :
+          /\ cks[i + 1] > cks[i]
+          /\ chord[i] >= 0
+          /\ chord[i] * 64 * lip[2] <= (cks[i + 1] - cks[i]) * d3 * lip[1] + 64 * lip[2] * tol3
+PitchInRange(pex, res) == \A i \in 1..Len(pex) : pex[i] >= 0 /\ pex[i] <= res
+
+(* --------------- space-time (SpaceTimeStateSpace) --------------- *)
+(* "The distance may be infinite", "direction independent", "the time to get from       *)
+(* state1 to state2 with respect to vMax": the distance is infinite iff the time between *)
+(* the two states (dt) is less than the time the motion needs at vMax (ttc, the          *)
+(* library's own timeToCoverDistance) - observations closer to that boundary than        *)
+(* `margin` may fall on either side; ttc x vMax is the distance of the space component   *)
+(* (ds); a finite distance is the weighted sum of ds and dt.  v = <<num, den>> = vMax.   *)
+InfiniteIffUnreachable(inf, ttc, dt, margin) == /\ inf => ttc + margin > dt
+                                                /\ ~inf => ttc <= dt + margin
+TimeToCoverIsDistanceOverVMax(ttc, ds, v, tol) == Abs(ttc * v[1] - ds * v[2]) <= tol * (v[1] + v[2])
+
+(* --------------- constrained spaces (projected, atlas, tangent bundle) --------------- *)
+(* interpolate(from, to, t) is the state of the discrete geodesic closest to t; it       *)
+(* "defaults to returning from if traversal fails".  d0 = d(I(0), from); d1 = d(I(1), to);*)
+(* s1 = d(from, I(1)).  ok1 / ok2: discreteGeodesic(from, to) succeeded when asked       *)
+(* before / after the interpolation calls.  The geodesic ends within delta of `to`.      *)
+StartsAtFrom(d0, tol0) == d0 >= 0 /\ d0 <= tol0
+EndsAtToOrStays(d1, s1, ok1, ok2, delta, tol0) ==
+    /\ (ok1 /\ ok2) => d1 <= delta + tol0                  \* reached: the last geodesic state
+    /\ (~ok1 /\ ~ok2) => s1 <= tol0                        \* failed: from
+    /\ d1 <= delta + tol0 \/ s1 <= tol0                     \* in any case one of the two
+StaysWhenGeodesicFails(dfrom, ok1, ok2, tol0) == (~ok1 /\ ~ok2) => \A i \in 1..Len(dfrom) : dfrom[i] <= tol0
+AllWithin(ds, tol) == \A i \in 1..Len(ds) : ds[i] >= 0 /\ ds[i] <= tol
 ==============================================================================
